@@ -513,8 +513,9 @@ func writeEvidence(verifDir string, res *CheckResult, cs *ContractSet, extra map
 	if err != nil {
 		return err
 	}
-	os.MkdirAll(filepath.Join(verifDir, "evidence"), 0o755)
-	return os.WriteFile(filepath.Join(verifDir, "evidence", res.Property+".json"), b, 0o644)
+	evDir := envOr("GVC_EVIDENCE_DIR", filepath.Join(verifDir, "evidence"))
+	os.MkdirAll(evDir, 0o755)
+	return os.WriteFile(filepath.Join(evDir, res.Property+".json"), b, 0o644)
 }
 
 func round3(f float64) float64 { return float64(int(f*1000+0.5)) / 1000 }
